@@ -22,6 +22,9 @@ EXPLANATION = (
     'done() test (a cancelled awaitable must not kill the one sender task); (f) nothing is signalled after the '
     'terminal signal (shared with C07.b); (g) every dereference of the optional local subscription of a channel is '
     'dominated by a None test. Not decided: "production stops" as an observable over time.')
+EXPLANATION_ADDED = ("(h) request_response registers the requester's cancel callback on the very future it returns; a CANCEL is never inserted at the head of the send queue (shared C05.b); disposing an Rx observable cancels the stream behind it (shared C20.d).")
+EXPLANATION = EXPLANATION.replace(' Not decided', ' ' + EXPLANATION_ADDED + ' Not decided', 1) \
+    if ' Not decided' in EXPLANATION else EXPLANATION + ' ' + EXPLANATION_ADDED
 ASSUMPTIONS = COMMON_ASSUMPTIONS
 
 
